@@ -51,7 +51,13 @@ def dag1():
         ("inst", "l", ("mod", "L"), [("a", nc("n1")), ("b", sig("z"))]),
         ("inst", "pz", ("ext", "P2", {"k": 9}), [("a", sig("z"))]),
     ]}
-    mods = {"L": L, "LB": LB, "M": M, "A": A, "B": B, "T": T, "T2": T2}
+    # C2: two M instances whose bundle ports are tied port-to-port only (an implicit bundle-valued net, no explicit Bundle)
+    C2 = {"name": "C2", "style": "class", "decls": [
+        ("port", "q", 2, "none"),
+        ("inst", "m0", ("mod", "M"), [("p", sig("q"))]),
+        ("inst", "m1", ("mod", "M"), [("p", sig("q")), ("bq", pref("m0", "bq"))]),
+    ]}
+    mods = {"L": L, "LB": LB, "M": M, "A": A, "B": B, "C2": C2, "T": T, "T2": T2}
     return {"bundles": BUNDLES, "exts": exts, "modules": mods, "top": "T"}
 
 
